@@ -358,6 +358,20 @@ class EngineIter(list):
         raise TypeError("'%s' object is not reversible" % "iterator")
 
 
+def _bounded(it):
+    """iterators without an end (itertools.count / cycle, repeat without times) may be zipped with something finite but must never be materialised"""
+    import itertools
+    if isinstance(it, (itertools.count, itertools.cycle)):
+        return False
+    if isinstance(it, itertools.repeat):
+        try:
+            it.__length_hint__()          # repeat(x, times) knows its length, repeat(x) raises TypeError
+            return True
+        except TypeError:
+            return False
+    return True
+
+
 def b_zip(interp, *its, strict=False):
     if any(isinstance(x, SymSeq) and not x.concrete_len() for x in its):
         seqs = [to_seq(x) for x in its]
@@ -366,7 +380,9 @@ def b_zip(interp, *its, strict=False):
             l2 = s.sym_len()
             ln = S.ite(l2 < ln, l2, ln)
         return SymSeq(ln, lambda i: tuple(s.at(i) for s in seqs), "zip")
-    return EngineIter(zip(*[list(x) for x in its]))
+    if not any(_bounded(x) for x in its) and its:
+        raise Unsupported("zip of iterators none of which ends")
+    return EngineIter(zip(*[x if not _bounded(x) else list(x) for x in its]))      # an endless iterator is consumed lazily, as far as the finite ones reach
 
 
 def to_seq(x):
@@ -391,6 +407,8 @@ def b_enumerate(interp, it, start=0):
         it = it.keys()
     if isinstance(it, SymSeq) and not it.concrete_len():
         return SymSeq(it.sym_len(), lambda i: (i + start, it.at(i)), "enumerate")
+    if not _bounded(it):
+        raise Unsupported("enumerate of an iterator that does not end")
     return EngineIter(enumerate(list(it), start))
 
 
@@ -460,7 +478,9 @@ def b_reversed(interp, it):
 def b_map(interp, f, *its):
     if len(its) == 1 and isinstance(its[0], SymSeq) and not its[0].concrete_len():
         return its[0].map(lambda v: interp.call(f, (v,)))
-    return EngineIter([interp.call(f, tuple(vs)) for vs in zip(*[list(x) for x in its])])
+    if not any(_bounded(x) for x in its) and its:
+        raise Unsupported("map over iterators none of which ends")
+    return EngineIter([interp.call(f, tuple(vs)) for vs in zip(*[x if not _bounded(x) else list(x) for x in its])])
 
 
 def b_filter(interp, f, it):
@@ -523,6 +543,14 @@ def b_round(interp, x, nd=None):
 def b_warn(interp, message, category=None, stacklevel=1, source=None):
     cur().event("warning", str(message) if not contains_sym(message) else "<symbolic message>")
     return None
+
+
+def b_repr(interp, x):
+    if isinstance(x, Sym):
+        if x.kind == "int":
+            return b_str(interp, x)          # repr of an int is its str
+        raise Unsupported("repr() of a symbolic %s" % x.kind)
+    return repr(x)
 
 
 def b_next(interp, it, *default):
@@ -752,6 +780,10 @@ def builtin_method(interp, slf, name, args, kwargs):
             return tot
         return NOT_HANDLED
     if isinstance(slf, str):
+        if name == "join" and args and not isinstance(args[0], (list, tuple, str, SymSeq, SymDict, dict, set, frozenset)):
+            args = (list(args[0]),) + tuple(args[1:])      # an iterator (chain, map, generator): its items are looked at below
+            if not contains_sym(args[0]):
+                return slf.join(args[0])                   # (the iterator is used up: the native call must get the list)
         if any(isinstance(a, Sym) for a in args) or (name == "join" and args and contains_sym(args[0])):
             s = Sym(z3.StringVal(slf))
             if name == "join":
@@ -804,6 +836,7 @@ def install(interp):
     r(map, b_map)
     r(filter, b_filter)
     r(next, b_next)
+    r(repr, b_repr)
     r(iter, b_iter)
     import functools
     r(functools.reduce, f_reduce)
